@@ -87,6 +87,15 @@ void ghost_init(void)
     w[1] = nondet_ulong();
     w[2] = nondet_ulong();
     w[3] = nondet_ulong();
+    /* OS law: a pipe created from now on is a new object, distinct from everything
+       already open - no initial identity lies in the range the first 16 fresh
+       pipes take (bytes 32..63; word-level "no byte is zero" test, loop-free) */
+#define VERIF_HASZERO(v) ((((v) - 0x0101010101010101ul) & ~(v) & 0x8080808080808080ul) != 0)
+    __CPROVER_assume(!VERIF_HASZERO((w[0] & 0xE0E0E0E0E0E0E0E0ul) ^ 0x2020202020202020ul) &&
+                     !VERIF_HASZERO((w[1] & 0xE0E0E0E0E0E0E0E0ul) ^ 0x2020202020202020ul) &&
+                     !VERIF_HASZERO((w[2] & 0xE0E0E0E0E0E0E0E0ul) ^ 0x2020202020202020ul) &&
+                     !VERIF_HASZERO((w[3] & 0xE0E0E0E0E0E0E0E0ul) ^ 0x2020202020202020ul));
+#undef VERIF_HASZERO
     memcpy(g.fds.obj, w, sizeof(g.fds.obj));
   }
   g.now = nondet_long();
@@ -350,6 +359,7 @@ ssize_t verif_read(int fd, void *buf, size_t n)
   g.rl.rd_buf = buf;
   g.rl.rd_n = n;
   g.rl.rd_errno = 0;
+  g.rl.rd_eof = false;
   V_ASSERT("C02/os.read.descriptor_open", IS_OPEN(fd));
   if (!IS_OPEN(fd)) {
     g.e.err = EBADF;
@@ -367,6 +377,20 @@ ssize_t verif_read(int fd, void *buf, size_t n)
     int stage = g.fork_stage;
     g.fork_stage = stage + 1;
     g.may_block = g.may_block || blocking;
+    /* pipe law: end-of-file is seen only once every write end is closed. The
+       parent waits here for the child to close its copy; if the parent itself
+       still holds the write end of this pipe, a successful child never makes
+       this read return (self-deadlock). */
+    {
+      unsigned want = (unsigned) g.fds.obj[fd] + 1u;
+#define VERIF_HELD(i) (((g.fds.open >> (i)) & 1u) & (unsigned) (g.fds.obj[i] == want))
+      unsigned held = VERIF_HELD(0) | VERIF_HELD(1) | VERIF_HELD(2) | VERIF_HELD(3) | VERIF_HELD(4) | VERIF_HELD(5) | VERIF_HELD(6) | VERIF_HELD(7) |
+                      VERIF_HELD(8) | VERIF_HELD(9) | VERIF_HELD(10) | VERIF_HELD(11) | VERIF_HELD(12) | VERIF_HELD(13) | VERIF_HELD(14) | VERIF_HELD(15) |
+                      VERIF_HELD(16) | VERIF_HELD(17) | VERIF_HELD(18) | VERIF_HELD(19) | VERIF_HELD(20) | VERIF_HELD(21) | VERIF_HELD(22) | VERIF_HELD(23) |
+                      VERIF_HELD(24) | VERIF_HELD(25) | VERIF_HELD(26) | VERIF_HELD(27) | VERIF_HELD(28) | VERIF_HELD(29) | VERIF_HELD(30) | VERIF_HELD(31);
+#undef VERIF_HELD
+      V_ASSERT("C04/os.read.parent_closed_its_write_end_before_waiting_for_the_child", (g.fds.obj[fd] & 1) != 0 || held == 0);
+    }
     /* a signal handler may interrupt the read: the library retries. At most
        VERIF_MAX_EINTR interruptions in a row are modelled (environment bound). */
     if (!gc.cfg_nofault && g.eintr_run < VERIF_MAX_EINTR && nondet_bool()) {
@@ -385,6 +409,7 @@ ssize_t verif_read(int fd, void *buf, size_t n)
       return (ssize_t) sizeof(int);
     }
     g.rl.rd_ret = 0;
+    g.rl.rd_eof = true;
     return 0;
   }
 
@@ -407,6 +432,9 @@ ssize_t verif_read(int fd, void *buf, size_t n)
     __CPROVER_havoc_slice(buf, (size_t) r);
   }
   g.rl.rd_ret = r;
+  /* 0 for a request of n > 0 bytes is end of stream; a request of 0 bytes
+     returns 0 and says nothing about the stream */
+  g.rl.rd_eof = r == 0 && n > 0;
   return r;
 }
 
@@ -866,9 +894,20 @@ int verif_pthread_sigmask(int how, const sigset_t *set, sigset_t *oldset)
   return 0;
 }
 
+/* single-threaded configuration (REPROC_MULTITHREADED off): the same call with
+   the sigprocmask convention - -1 and errno instead of the error number */
+int verif_sigprocmask(int how, const sigset_t *set, sigset_t *oldset)
+{
+  int e = verif_pthread_sigmask(how, set, oldset);
+  if (e != 0) {
+    g.e.err = e;
+    return -1;
+  }
+  return 0;
+}
+
 int verif_sigaction(int sig, const struct sigaction *act, struct sigaction *old)
 {
-  (void) old;
   os_call();
   V_ASSERT("C12/os.sigaction.child_only", g.in_child);
   if (sig <= 0 || sig >= 65 || sig == SIGKILL || sig == SIGSTOP) {
@@ -882,6 +921,10 @@ int verif_sigaction(int sig, const struct sigaction *act, struct sigaction *old)
     }
     fault(e);
     return -1;
+  }
+  if (old != NULL) {
+    /* the kernel stores the previous action there: the pointer must be valid */
+    *old = (struct sigaction){ 0 };
   }
   if (act != NULL) {
     if (act->sa_handler == SIG_DFL) {
